@@ -1,4 +1,4 @@
-(* StaticEquiv2 — C01, M1 = S, stage 2 (named parameters, backtracking).
+(* StaticEquiv2 — C01, M1 = S, stages 2 and 3 (named parameters, suffix catch-all, backtracking).
    M2 = structurally recursive DFS matcher over the tree; M1 = M2 (the explicit
    skipped-node stack is the DFS continuation); M2 = S by induction on the tree.
    Owner: proof agent p-equiv. *)
@@ -123,8 +123,10 @@ Qed.
 (* ------------------------------------------------------------------ *)
 Definition is_slash (x : ascii) : bool := Ascii.eqb x "/".
 
-Inductive kres := KDone (rest : bytes) (vals : list kv) | KShort | KFail.
+Inductive kres := KDone (rest : bytes) (vals : list kv) | KCatch (vals : list kv) | KShort | KFail.
 
+(* a catch-all is matched here only when it ends the key (suffix catch-all):
+   it takes the whole non-empty remainder *)
 Fixpoint kmatch (kt : list token) (p : bytes) (vals : list kv) : kres :=
   match kt with
   | [] => KDone p vals
@@ -139,13 +141,13 @@ Fixpoint kmatch (kt : list token) (p : bytes) (vals : list kv) : kres :=
           | [] => KFail
           | v => kmatch kt' (skipn (List.length v) p) (vals ++ [(nm, v)])
           end
-      | TCatch _ => KFail
+      | TCatch nm => match kt' with [] => KCatch (vals ++ [(nm, p)]) | _ => KFail end
       end
     end
   end.
 
 Definition kres_pre (pre : list kv) (r : kres) : kres :=
-  match r with KDone rest vals => KDone rest (pre ++ vals) | x => x end.
+  match r with KDone rest vals => KDone rest (pre ++ vals) | KCatch vals => KCatch (pre ++ vals) | x => x end.
 
 Lemma kmatch_acc : forall kt p vals, kmatch kt p vals = kres_pre vals (kmatch kt p []).
 Proof.
@@ -154,8 +156,47 @@ Proof.
   - destruct p as [|c p']; [reflexivity|]. destruct t as [d|nm|nm]; cbn [kmatch].
     + destruct (Ascii.eqb d c && sbyte c); [apply IH|reflexivity].
     + destruct (seg is_slash (c :: p')) as [|v0 v]; [reflexivity|].
-      rewrite IH. rewrite (IH _ ([] ++ _)). destruct (kmatch kt _ []); simpl; auto. rewrite <- app_assoc. reflexivity.
-    + reflexivity.
+      rewrite IH. rewrite (IH _ ([] ++ _)). destruct (kmatch kt _ []); simpl; auto; rewrite <- app_assoc; reflexivity.
+    + destruct kt; reflexivity.
+Qed.
+
+(* token validity of a key: static bytes and {name}; a catch-all only as the last token, and
+   only when allowed (b: the node is a leaf without children) *)
+Fixpoint kt_ok (b : bool) (kt : list token) : bool :=
+  match kt with
+  | [] => true
+  | t :: kt' =>
+    match t, kt' with
+    | TCatch nm, [] => name_ok nm && b
+    | _, _ => ptok_ok t && kt_ok b kt'
+    end
+  end.
+
+Lemma kt_ok_cons b t kt : kt_ok b (t :: kt) = true ->
+  (ptok_ok t = true /\ kt_ok b kt = true) \/ (exists nm, t = TCatch nm /\ kt = [] /\ name_ok nm = true /\ b = true).
+Proof.
+  cbn [kt_ok]. destruct t as [d|nm|nm].
+  - intros H. apply andb_prop in H. left. exact H.
+  - intros H. apply andb_prop in H. left. exact H.
+  - destruct kt as [|t' kt'].
+    + intros H. apply andb_prop in H. right. exists nm. tauto.
+    + simpl. discriminate.
+Qed.
+
+Lemma kt_ok_tok b kt : kt_ok b kt = true -> forallb tok_ok kt = true.
+Proof.
+  induction kt as [|t kt IH]; intros H; auto. apply kt_ok_cons in H.
+  destruct H as [[H1 H2]|(nm & -> & -> & H1 & _)].
+  - simpl. rewrite (ptok_tok _ H1), IH; auto.
+  - simpl. rewrite H1. reflexivity.
+Qed.
+
+Lemma kt_ok_of_ptok b kt : forallb ptok_ok kt = true -> kt_ok b kt = true.
+Proof.
+  induction kt as [|t kt IH]; intros H; auto. simpl in H. apply andb_prop in H. destruct H as [H1 H2].
+  specialize (IH H2).
+  destruct t as [d|nm|nm]; simpl in H1; try discriminate; destruct kt as [|t' kt']; cbn [kt_ok ptok_ok];
+    rewrite H1; auto.
 Qed.
 
 Lemma index_byte_seg : forall p,
@@ -203,6 +244,9 @@ Proof. destruct lazy; simpl; auto. apply extends_app. Qed.
 Definition backs (path : bytes) (lazy : bool) (fuel : nat) (ph : phase) (s : st) (cost : nat) : Prop :=
   exists fuel' s', lbp fuel path lazy ph s = lbp fuel' path lazy PBack s' /\ fuel <= fuel' + cost /\
                    sks s' = sks s /\ extends (ps s) (ps s') /\ tinv s' /\ pkc s' = 0.
+
+Definition found_as (r : lres) (l : node) (pss : list kv) : Prop :=
+  exists tps', r = Found (Some l) false pss tps'.
 
 Lemma backs_after path lazy fuel s cost :
   is_leaf (cur s) && Nat.eqb (cm s) (List.length path) && Nat.eqb (cmn s) (List.length (nkey (cur s))) = false ->
@@ -360,17 +404,53 @@ Proof. rewrite forallb_app. intros H. apply andb_prop in H. exact H. Qed.
 
 Ltac fin := eauto; try lia; try apply extends_refl; try (rewrite addp_nil; reflexivity); try reflexivity.
 
-Lemma inner_tok path lazy : forall kt done s fuel,
-  nkey (cur s) = render (done ++ kt) -> forallb ptok_ok (done ++ kt) = true ->
+Lemma found_step path lazy fuel ph s l v0 vals1 fuel1 ph1 s1 :
+  lbp fuel path lazy ph s = lbp fuel1 path lazy ph1 s1 ->
+  found_as (lbp fuel1 path lazy ph1 s1) l (addp lazy (ps s1) vals1) ->
+  ps s1 = addp lazy (ps s) v0 ->
+  found_as (lbp fuel path lazy ph s) l (addp lazy (ps s) (v0 ++ vals1)).
+Proof.
+  intros He [tps' Hf] Hps. exists tps'. rewrite He, Hf, Hps, addp_addp. reflexivity.
+Qed.
+
+Lemma inner_catch_step f path lazy i s c prm :
+  nth_error (nkey (cur s)) i = Some "*" -> nth_error path (cm s) = Some c ->
+  nth_error (nparams (cur s)) (pkc s) = Some prm -> pend prm = None -> nchildren (cur s) = [] ->
+  lbp (S f) path lazy (PInner i) s =
+  Found (Some (cur s)) false (addp lazy (ps s) [(pkey prm, skipn (cm s) path)]) (tps s).
+Proof.
+  intros Hk Hp Hprm Hpe Hch. cbn [lbp].
+  assert (i < List.length (nkey (cur s))) as Hi by (apply nth_error_Some; congruence).
+  assert (cm s < List.length path) as Hc by (apply nth_error_Some; congruence).
+  apply Nat.ltb_lt in Hi, Hc. rewrite Hi, Hc. cbn [negb]. rewrite Hk, Hp.
+  assert (negb (Ascii.eqb "*" c) || Ascii.eqb c "{" || Ascii.eqb c "*" = true) as ->.
+  { rewrite (Ascii.eqb_sym "*" c). destruct (Ascii.eqb c "*"); [apply orb_true_r|reflexivity]. }
+  cbn [Ascii.eqb Bool.eqb andb]. rewrite Hprm, Hpe, Hch. reflexivity.
+Qed.
+
+Lemma catch_info s done nm :
+  nkey (cur s) = render (done ++ [TCatch nm]) -> forallb tok_ok (done ++ [TCatch nm]) = true ->
+  pkc s = cnt_wild done ->
+  exists prm, nth_error (nparams (cur s)) (pkc s) = Some prm /\ pkey prm = nm /\ pend prm = None.
+Proof.
+  intros Hk Hok Hpkc. unfold nparams, parse_wildcard. rewrite Hk, pw_render by exact Hok.
+  rewrite Hpkc. rewrite (pw_spec_nth done (TCatch nm) [] 0 (List.length (render done))) by auto.
+  cbn [pw_spec hd_error]. eexists. split; [reflexivity|]. split; reflexivity.
+Qed.
+
+Lemma inner_tok path lazy b : forall kt done s fuel,
+  nkey (cur s) = render (done ++ kt) -> forallb ptok_ok done = true -> kt_ok b kt = true ->
+  (b = true -> nchildren (cur s) = []) ->
   cmn s = List.length (render done) -> pkc s = cnt_wild done ->
   pcnt s = List.length (ps s) -> tinv s -> cm s <= List.length path ->
   List.length (render kt) + 4 <= fuel ->
   match kmatch kt (skipn (cm s) path) [] with
   | KDone rest vals => inner_ok path lazy fuel s rest vals (List.length (render kt) + 1)
+  | KCatch vals => found_as (lbp fuel path lazy (PInner (cmn s)) s) (cur s) (addp lazy (ps s) vals)
   | _ => backs path lazy fuel (PInner (cmn s)) s (List.length (render kt) + 4)
   end.
 Proof.
-  induction kt as [|t kt IH]; intros done s fuel Hk Hok Hcmn Hpkc Hpc Ht Hcm Hf.
+  induction kt as [|t kt IH]; intros done s fuel Hk Hokd Hokt0 Hb Hcmn Hpkc Hpc Ht Hcm Hf.
   - (* key exhausted *)
     cbn [kmatch]. destruct fuel as [|f]; [lia|]. exists f, s.
     rewrite inner_exit by (right; rewrite Hk, app_nil_r, Hcmn; lia).
@@ -394,8 +474,15 @@ Proof.
     + pose proof (skipn_cons_nth _ _ _ _ Ep) as (Hpc0 & Hp' & Hlt).
       assert (Hkey : nth_error (nkey (cur s)) (cmn s) = hd_error (render (t :: kt))).
       { rewrite Hk, render_app, Hcmn. apply nth_error_app_len. }
-      apply forallb_app_l in Hok. destruct Hok as [Hokd Hokt].
-      pose proof Hokt as Hokt0. simpl in Hokt. apply andb_prop in Hokt. destruct Hokt as [Hokt1 Hokt2].
+      pose proof (kt_ok_tok _ _ Hokt0) as Htok0.
+      destruct (kt_ok_cons _ _ _ Hokt0) as [[Hokt1 Hokt2]|(cn & -> & -> & Hcn & ->)].
+      2:{ (* suffix catch-all *)
+          simpl in Hkey. cbn [kmatch].
+          destruct (catch_info s done cn Hk) as (prm & Hprm & Hpk & Hpe); auto.
+          { rewrite forallb_app, (forallb_ptok_tok _ Hokd). exact Htok0. }
+          destruct fuel as [|f]; [lia|].
+          rewrite (inner_catch_step f path lazy (cmn s) s c prm Hkey Hpc0 Hprm Hpe (Hb eq_refl)).
+          rewrite Hpk, Ep. exists (tps s). reflexivity. }
       destruct t as [d|nm|nm]; [| |discriminate].
       * (* static byte *)
         simpl in Hkey, Hokt1. cbn [kmatch].
@@ -409,16 +496,19 @@ Proof.
            change (List.length (render_tok (TStatic d))) with 1 in Hrl.
            assert (IH' := IH (done ++ [TStatic d]) (adv s 1) f).
            rewrite <- app_assoc in IH'. simpl app in IH'.
-           specialize (IH' Hk).
-           rewrite forallb_app in IH'. rewrite Hokd in IH'. specialize (IH' Hokt0).
+           assert (Hd1 : forallb ptok_ok (done ++ [TStatic d]) = true)
+             by (rewrite forallb_app, Hokd; simpl; rewrite Hokt1; reflexivity).
+           specialize (IH' Hk Hd1 Hokt2 Hb).
            specialize (IH' ltac:(change (cmn (adv s 1)) with (S (cmn s)); rewrite Hr1; lia) ltac:(change (pkc (adv s 1)) with (pkc s); rewrite Hcw; exact Hpkc) Hpc Ht
                            ltac:(change (cm (adv s 1)) with (S (cm s)); lia) ltac:(lia)).
            change (cm (adv s 1)) with (S (cm s)) in IH'. rewrite Hp' in IH'.
            change (cmn (adv s 1)) with (S (cmn s)) in IH'.
            clear IH. rename IH' into IH.
-           destruct (kmatch kt p' []) as [rest vals| |].
+           destruct (kmatch kt p' []) as [rest vals|vals| |].
            ++ replace vals with ([] ++ vals) by reflexivity.
               eapply (inner_ok_step path lazy (S f) s rest [] vals _ f (adv s 1) _ 1); fin.
+           ++ replace vals with ([] ++ vals) by reflexivity.
+              eapply (found_step path lazy (S f) _ s _ [] vals f _ (adv s 1)); fin.
            ++ eapply (backs_step path lazy (S f) _ s _ f _ (adv s 1) _ 1); fin.
            ++ eapply (backs_step path lazy (S f) _ s _ f _ (adv s 1) _ 1); fin.
         -- eapply (backs_step path lazy (S f) _ s _ f PAfter s 1 1); fin.
@@ -426,7 +516,7 @@ Proof.
       * (* named parameter *)
         simpl in Hkey.
         destruct (param_info s done nm kt Hk) as (prm & Hprm & Hpk & Hadv); auto.
-        { rewrite forallb_app. rewrite (forallb_ptok_tok _ Hokd), (forallb_ptok_tok _ Hokt0). reflexivity. }
+        { rewrite forallb_app. rewrite (forallb_ptok_tok _ Hokd), Htok0. reflexivity. }
         destruct fuel as [|f]; [lia|].
         pose proof (inner_param_step f path lazy (cmn s) s c prm Hkey Hpc0 Hprm) as Hstep.
         rewrite Hadv, Hpk, Ep in Hstep.
@@ -444,6 +534,7 @@ Proof.
                         | a :: l => kmatch kt (skipn (List.length (a :: l)) (c :: p')) ([] ++ [(nm, a :: l)])
                         end with
                   | KDone rest vals => inner_ok path lazy (S f) s rest vals (List.length (render (TParam nm :: kt)) + 1)
+                  | KCatch vals => found_as (lbp (S f) path lazy (PInner (cmn s)) s) (cur s) (addp lazy (ps s) vals)
                   | _ => backs path lazy (S f) (PInner (cmn s)) s (List.length (render (TParam nm :: kt)) + 4)
                   end).
         { intros cm' Hcm' Hvne Hvlen Hslice Hst. clear Hseg.
@@ -457,8 +548,9 @@ Proof.
           assert (Hlenp : List.length (c :: p') = List.length path - cm s) by (rewrite <- Ep; apply skipn_length).
           assert (IH' := IH (done ++ [TParam nm]) s1 f).
           rewrite <- app_assoc in IH'. simpl app in IH'.
-          specialize (IH' Hk).
-          rewrite forallb_app in IH'. rewrite Hokd in IH'. specialize (IH' Hokt0).
+          assert (Hd1 : forallb ptok_ok (done ++ [TParam nm]) = true)
+            by (rewrite forallb_app, Hokd; cbn [forallb]; rewrite Hokt1; reflexivity).
+          specialize (IH' Hk Hd1 Hokt2 Hb).
           assert (Hrl' : List.length (render (TParam nm :: kt)) = List.length nm + 2 + List.length (render kt)).
           { rewrite Hrl. f_equal. simpl. rewrite app_length. simpl. lia. }
           specialize (IH' ltac:(change (cmn s1) with (cmn s + (List.length nm + 2)); rewrite Hr1; lia)
@@ -474,8 +566,9 @@ Proof.
           assert (Hx : extends (ps s) (ps s1)).
           { unfold s1, pstate; cbn [ps]. destruct lazy; [apply extends_refl|].
             unfold extends. rewrite firstn_app, Nat.sub_diag, firstn_all. simpl. apply app_nil_r. }
-          destruct (kmatch kt (skipn (List.length v) (c :: p')) []) as [rest vals| |]; cbn [kres_pre].
+          destruct (kmatch kt (skipn (List.length v) (c :: p')) []) as [rest vals|vals| |]; cbn [kres_pre].
           - eapply (inner_ok_step path lazy (S f) s rest [(nm, v)] vals _ f s1 _ 1); fin.
+          - eapply (found_step path lazy (S f) _ s _ [(nm, v)] vals f _ s1); fin.
           - eapply (backs_step path lazy (S f) _ s _ f _ s1 _ 1); fin.
           - eapply (backs_step path lazy (S f) _ s _ f _ s1 _ 1); fin. }
         destruct (index_byte (c :: p') "/") as [[|dd]|] eqn:Eidx.
@@ -627,7 +720,8 @@ Fixpoint m2 (n : node) (p : bytes) : mres :=
                      | [] => None
                      | x :: l' => if starts_with cc (nkey x) then m2 x (c :: rest) else go cc l'
                      end in
-        with_vals vals (alt (try c ch) (try "{" ch))
+        with_vals vals (alt (try c ch) (alt (try "{" ch) (try "*" ch)))
+    | KCatch vals => Some (n, vals)
     | _ => None
     end
   end.
@@ -639,11 +733,13 @@ Lemma m2_eq k r ch p :
   m2 (Node k r ch) p =
   match kmatch (tokenize k) p [] with
   | KDone [] vals => match r with Some _ => Some (Node k r ch, vals) | None => None end
-  | KDone (c :: rest) vals => with_vals vals (alt (m2_child c ch (c :: rest)) (m2_child "{" ch (c :: rest)))
+  | KDone (c :: rest) vals =>
+      with_vals vals (alt (m2_child c ch (c :: rest)) (alt (m2_child "{" ch (c :: rest)) (m2_child "*" ch (c :: rest))))
+  | KCatch vals => Some (Node k r ch, vals)
   | _ => None
   end.
 Proof.
-  cbn [m2]. destruct (kmatch (tokenize k) p []) as [[|c rest] vals| |]; auto.
+  cbn [m2]. destruct (kmatch (tokenize k) p []) as [[|c rest] vals|vals| |]; auto.
   assert (forall cc, (fix go (cc : ascii) (l : list node) {struct l} : mres :=
                         match l with
                         | [] => None
@@ -653,51 +749,45 @@ Proof.
   rewrite !H. reflexivity.
 Qed.
 
-(* stage-2 invariant: keys are whole tokens (static bytes, {name}); sibling keys start with
-   pairwise distinct bytes (hence at most one parameter child); a leaf's pattern is the
-   concatenation of the keys on its branch *)
+(* leaf without children: the only place where a key may end with a catch-all (stage 3) *)
+Definition lnc (r : option route) (ch : list node) : bool :=
+  match r, ch with Some _, [] => true | _, _ => false end.
+
+(* invariant: keys are whole tokens (static bytes, {name}, and a final *{name} on a childless
+   leaf); sibling keys start with pairwise distinct bytes (hence at most one parameter child and
+   one catch-all child); a leaf's pattern is the concatenation of the keys on its branch *)
 Inductive pwf : bytes -> node -> Prop :=
 | PWF pre k r ch kt :
-    kt <> [] -> k = render kt -> forallb ptok_ok kt = true ->
+    kt <> [] -> k = render kt -> kt_ok (lnc r ch) kt = true ->
     (forall rt, r = Some rt -> rpat rt = pre ++ k) ->
     NoDup (heads ch) ->
     Forall (pwf (pre ++ k)) ch ->
     pwf pre (Node k r ch).
 
 Lemma pwf_inv pre k r ch : pwf pre (Node k r ch) ->
-  exists kt, kt <> [] /\ k = render kt /\ forallb ptok_ok kt = true /\
+  exists kt, kt <> [] /\ k = render kt /\ kt_ok (lnc r ch) kt = true /\
              (forall rt, r = Some rt -> rpat rt = pre ++ k) /\ NoDup (heads ch) /\ Forall (pwf (pre ++ k)) ch.
 Proof. inversion 1; subst. exists kt. auto 7. Qed.
 
-Lemma pwf_head_not_star pre x : pwf pre x -> starts_with "*" (nkey x) = false.
-Proof.
-  destruct x as [k r ch]. intros H. apply pwf_inv in H. destruct H as (kt & Hne & -> & Hok & _).
-  destruct kt as [|t kt]; [congruence|]. simpl in Hok. apply andb_prop in Hok. destruct Hok as [Ht _].
-  destruct t as [c|nm|nm]; simpl in *; try discriminate; auto.
-  unfold sbyte in Ht. apply andb_prop in Ht. destruct Ht as [_ H2]. apply negb_true_iff in H2. exact H2.
-Qed.
-
-Lemma pwf_no_wildcard pre n : pwf pre n -> wildcard_child_index n = None.
-Proof.
-  destruct n as [k r ch]. intros H. apply pwf_inv in H. destruct H as (kt & _ & _ & _ & _ & _ & Hch).
-  unfold wildcard_child_index. simpl. apply last_index_none. intros x Hx.
-  rewrite Forall_forall in Hch. eapply pwf_head_not_star; eauto.
-Qed.
+Lemma lnc_nochild r ch : lnc r ch = true -> ch = [].
+Proof. destruct r, ch; simpl; auto; discriminate. Qed.
+Lemma lnc_leaf r ch : lnc r ch = true -> r <> None.
+Proof. destruct r, ch; simpl; try discriminate. Qed.
 
 Fixpoint ncost (n : node) : nat :=
   match n with
-  | Node k r ch => List.length k + 12 + 2 * (fix sum (l : list node) : nat :=
-                                                match l with [] => 0 | x :: l' => ncost x + sum l' end) ch
+  | Node k r ch => List.length k + 12 + 3 * (fix sum (l : list node) : nat :=
+                                                match l with [] => 0 | x :: l' => S (ncost x) + sum l' end) ch
   end.
-Fixpoint ncost_sum (l : list node) : nat := match l with [] => 0 | x :: l' => ncost x + ncost_sum l' end.
-Lemma ncost_eq k r ch : ncost (Node k r ch) = List.length k + 12 + 2 * ncost_sum ch.
+Fixpoint ncost_sum (l : list node) : nat := match l with [] => 0 | x :: l' => S (ncost x) + ncost_sum l' end.
+Lemma ncost_eq k r ch : ncost (Node k r ch) = List.length k + 12 + 3 * ncost_sum ch.
 Proof.
   cbn [ncost].
-  assert ((fix sum (l : list node) : nat := match l with [] => 0 | x :: l' => ncost x + sum l' end) ch = ncost_sum ch) as ->.
+  assert ((fix sum (l : list node) : nat := match l with [] => 0 | x :: l' => S (ncost x) + sum l' end) ch = ncost_sum ch) as ->.
   { induction ch as [|x ch IH]; simpl; auto. }
   reflexivity.
 Qed.
-Lemma ncost_in x ch : In x ch -> ncost x <= ncost_sum ch.
+Lemma ncost_in x ch : In x ch -> S (ncost x) <= ncost_sum ch.
 Proof. induction ch as [|y ch IH]; simpl; [tauto|]. intros [->|H]; [lia|]. apply IH in H. lia. Qed.
 
 (* ------------------------------------------------------------------ *)
@@ -711,36 +801,189 @@ Lemma walk_lt' f path lazy s : cm s < List.length path ->
   lbp (S f) path lazy PWalk s = lbp f path lazy (PInner 0) (reset_cmn s).
 Proof. exact (walk_lt f path lazy s). Qed.
 
-Definition found_as (r : lres) (l : node) (pss : list kv) : Prop :=
-  exists tps', r = Found (Some l) false pss tps'.
-
 Lemma extends_addp_self lazy a v : extends a (addp lazy a v).
 Proof.
   destruct lazy; simpl; [apply extends_refl|].
   unfold extends. rewrite firstn_app, Nat.sub_diag, firstn_all. simpl. apply app_nil_r.
 Qed.
-Lemma walk_m2 path lazy : forall n pre, pwf pre n ->
-  forall fuel s, cur s = n -> cm s < List.length path -> pkc s = 0 -> pcnt s = List.length (ps s) -> tinv s ->
-  ncost n <= fuel ->
-  match m2 n (skipn (cm s) path) with
+Definition optl {A} (o : option A) : list A := match o with Some x => [x] | None => [] end.
+
+Fixpoint push_all (s : st) (idxs : list nat) : st :=
+  match idxs with [] => s | i :: r => push (push_all s r) i end.
+
+Definition entry (s : st) (i : nat) : skipped :=
+  {| sk_n := cur s; sk_path := cm s; sk_pcnt := pcnt s; sk_child := i |}.
+
+Lemma push_all_core s idxs :
+  cur (push_all s idxs) = cur s /\ par (push_all s idxs) = par s /\ cm (push_all s idxs) = cm s /\
+  cmn (push_all s idxs) = cmn s /\ pcnt (push_all s idxs) = pcnt s /\ pkc (push_all s idxs) = pkc s /\
+  ps (push_all s idxs) = ps s /\ tsr (push_all s idxs) = tsr s /\ tn (push_all s idxs) = tn s.
+Proof. induction idxs as [|i r IH]; simpl; tauto. Qed.
+
+Lemma push_all_sks s idxs : sks (push_all s idxs) = map (entry s) idxs ++ sks s.
+Proof.
+  induction idxs as [|i r IH]; simpl; auto.
+  destruct (push_all_core s r) as (H1 & _ & H3 & _ & H5 & _).
+  rewrite IH, H1, H3, H5. reflexivity.
+Qed.
+
+(* the alternatives tried at a node, in order: static child, parameter child, catch-all child *)
+Definition alts_nodes (c : ascii) (ch : list node) : list node :=
+  optl (first_child c ch) ++ optl (first_child "{" ch) ++ optl (first_child "*" ch).
+
+Lemma select_alts f path lazy s c :
+  cm s < List.length path -> nth_error path (cm s) = Some c ->
+  NoDup (heads (nchildren (cur s))) -> tinv s ->
+  exists s1 es, map snd es = alts_nodes c (nchildren (cur s)) /\
+    (forall e, In e es -> nth_error (nchildren (cur s)) (fst e) = Some (snd e)) /\
+    same_core s s1 /\ tinv s1 /\ pcnt s1 = pcnt s /\
+    lbp (S f) path lazy PSelect s =
+    match es with
+    | [] => lbp f path lazy PAfter s1
+    | e1 :: rest => lbp f path lazy PWalk (descend (push_all s1 (map fst rest)) (snd e1))
+    end.
+Proof.
+  intros Hlt Hc Hnd Ht. cbn [lbp]. apply Nat.ltb_lt in Hlt. rewrite Hlt, Hc.
+  pose proof (find_child_first (cur s) c) as Hfc.
+  pose proof (index_first "{" (cur s) Hnd) as Hpc.
+  pose proof (index_first "*" (cur s) Hnd) as Hwc.
+  change (last_index_from 0 "{" (nchildren (cur s)) None) with (param_child_index (cur s)) in Hpc.
+  change (last_index_from 0 "*" (nchildren (cur s)) None) with (wildcard_child_index (cur s)) in Hwc.
+  unfold alts_nodes.
+  destruct (find_child (cur s) c) as [i|].
+  - destruct Hfc as [Hfi Hfn]. destruct (first_child c (nchildren (cur s))) as [x|] eqn:Ex; [|congruence].
+    rewrite Hfi.
+    destruct (param_child_index (cur s)) as [pi|]; destruct (wildcard_child_index (cur s)) as [wi|].
+    + destruct Hpc as [Hp1 Hp2]. destruct Hwc as [Hw1 Hw2].
+      destruct (first_child "{" (nchildren (cur s))) as [y|] eqn:Ey; [|congruence].
+      destruct (first_child "*" (nchildren (cur s))) as [w|] eqn:Ew; [|congruence].
+      exists s, [(i, x); (pi, y); (wi, w)]. simpl. repeat split; auto.
+      intros e [<-|[<-|[<-|[]]]]; auto.
+    + destruct Hpc as [Hp1 Hp2]. rewrite Hwc.
+      destruct (first_child "{" (nchildren (cur s))) as [y|] eqn:Ey; [|congruence].
+      exists s, [(i, x); (pi, y)]. simpl. repeat split; auto.
+      intros e [<-|[<-|[]]]; auto.
+    + destruct Hwc as [Hw1 Hw2]. rewrite Hpc.
+      destruct (first_child "*" (nchildren (cur s))) as [w|] eqn:Ew; [|congruence].
+      exists s, [(i, x); (wi, w)]. simpl. repeat split; auto.
+      intros e [<-|[<-|[]]]; auto.
+    + rewrite Hpc, Hwc. exists s, [(i, x)]. simpl. repeat split; auto.
+      intros e [<-|[]]; auto.
+  - rewrite Hfc.
+    match goal with |- context [if ?b then set_tsr lazy s (cur s) (ps s) else s] =>
+      set (s1 := if b then set_tsr lazy s (cur s) (ps s) else s) end.
+    assert (Hs1 : same_core s s1 /\ tinv s1 /\ pcnt s1 = pcnt s /\ cur s1 = cur s).
+    { unfold s1. match goal with |- context [if ?b then _ else _] => destruct b end.
+      - repeat split. apply set_tsr_tinv.
+      - repeat split. exact Ht. }
+    destruct Hs1 as (Hcore & Ht1 & Hpc1 & Hcur1). rewrite Hcur1.
+    pose proof Hcore as (Hco1 & Hco2 & Hco3 & Hco4 & Hco5 & Hco6).
+    destruct (param_child_index (cur s)) as [pi|]; destruct (wildcard_child_index (cur s)) as [wi|].
+    + destruct Hpc as [Hp1 Hp2]. destruct Hwc as [Hw1 Hw2].
+      destruct (first_child "{" (nchildren (cur s))) as [y|] eqn:Ey; [|congruence].
+      destruct (first_child "*" (nchildren (cur s))) as [w|] eqn:Ew; [|congruence].
+      rewrite Hp1. exists s1, [(pi, y); (wi, w)]. simpl. repeat split; auto.
+      intros e [<-|[<-|[]]]; auto.
+    + destruct Hpc as [Hp1 Hp2]. rewrite Hwc.
+      destruct (first_child "{" (nchildren (cur s))) as [y|] eqn:Ey; [|congruence].
+      rewrite Hp1. exists s1, [(pi, y)]. simpl. repeat split; auto.
+      intros e [<-|[]]; auto.
+    + destruct Hwc as [Hw1 Hw2]. rewrite Hpc.
+      destruct (first_child "*" (nchildren (cur s))) as [w|] eqn:Ew; [|congruence].
+      rewrite Hw1. exists s1, [(wi, w)]. simpl. repeat split; auto.
+      intros e [<-|[]]; auto.
+    + rewrite Hpc, Hwc. exists s1, []. simpl. repeat split; auto. intros e [].
+Qed.
+
+Definition walk_ok (path : bytes) (lazy : bool) (y : node) : Prop :=
+  forall fuel s, cur s = y -> cm s < List.length path -> pkc s = 0 -> pcnt s = List.length (ps s) -> tinv s ->
+  ncost y <= fuel ->
+  match m2 y (skipn (cm s) path) with
   | Some (l, vals) => found_as (lbp fuel path lazy PWalk s) l (addp lazy (ps s) vals)
-  | None => backs path lazy fuel PWalk s (ncost n)
+  | None => backs path lazy fuel PWalk s (ncost y)
+  end.
+
+Fixpoint first_some (l : list mres) : mres := match l with [] => None | a :: r => alt a (first_some r) end.
+Fixpoint es_cost (es : list (nat * node)) : nat :=
+  match es with [] => 0 | e :: r => S (ncost (snd e)) + es_cost r end.
+
+Lemma alt_none_r a : alt a None = a.
+Proof. destruct a; reflexivity. Qed.
+
+Lemma alts_first_some c ch q :
+  alt (m2_child c ch q) (alt (m2_child "{" ch q) (m2_child "*" ch q)) =
+  first_some (map (fun x => m2 x q) (alts_nodes c ch)).
+Proof.
+  unfold m2_child, alts_nodes.
+  destruct (first_child c ch), (first_child "{" ch), (first_child "*" ch); simpl; rewrite ?alt_none_r; reflexivity.
+Qed.
+
+(* Backtrack through the remaining alternatives of one node *)
+Lemma pop_alts path lazy parent cmv ps0 sks0 : forall es fuel s2,
+  sks s2 = map (fun e => {| sk_n := parent; sk_path := cmv; sk_pcnt := List.length ps0; sk_child := fst e |}) es ++ sks0 ->
+  (forall e, In e es -> nth_error (nchildren parent) (fst e) = Some (snd e) /\ walk_ok path lazy (snd e)) ->
+  extends ps0 (ps s2) -> tinv s2 -> pkc s2 = 0 -> cmv < List.length path -> es_cost es <= fuel ->
+  match first_some (map (fun e => m2 (snd e) (skipn cmv path)) es) with
+  | Some (l, v2) => found_as (lbp fuel path lazy PBack s2) l (addp lazy ps0 v2)
+  | None => exists fuel' s3, lbp fuel path lazy PBack s2 = lbp fuel' path lazy PBack s3 /\
+              fuel <= fuel' + es_cost es /\ sks s3 = sks0 /\ extends ps0 (ps s3) /\ tinv s3 /\ pkc s3 = 0
   end.
 Proof.
+  induction es as [|e es IH]; intros fuel s2 Hsk Hes Hx Ht Hk Hcm Hf.
+  - simpl. exists fuel, s2. simpl in Hsk. repeat split; auto. simpl; lia.
+  - cbn [map first_some es_cost] in *.
+    destruct (Hes e (or_introl eq_refl)) as [Hnth Hwalk].
+    destruct fuel as [|f]; [lia|].
+    set (sk := {| sk_n := parent; sk_path := cmv; sk_pcnt := List.length ps0; sk_child := fst e |}) in *.
+    set (rest := map (fun e0 => {| sk_n := parent; sk_path := cmv; sk_pcnt := List.length ps0; sk_child := fst e0 |}) es ++ sks0) in *.
+    assert (Hpop : lbp (S f) path lazy PBack s2 = lbp f path lazy PWalk (popped s2 sk rest (snd e))).
+    { apply back_pop; auto. simpl. apply extends_len. exact Hx. }
+    set (s3 := popped s2 sk rest (snd e)) in *.
+    assert (Hps3 : ps s3 = ps0) by exact Hx.
+    pose proof (Hwalk f s3 eq_refl Hcm Hk) as Hw. rewrite Hps3 in Hw.
+    specialize (Hw eq_refl Ht ltac:(lia)). change (cm s3) with cmv in Hw.
+    destruct (m2 (snd e) (skipn cmv path)) as [[l v2]|].
+    + cbn [alt]. destruct Hw as [tps' E]. exists tps'. rewrite Hpop, E. reflexivity.
+    + cbn [alt]. destruct Hw as (f4 & s4 & He4 & Hf4 & Hsk4 & Hx4 & Ht4 & Hk4).
+      change (sks s3) with rest in Hsk4. rewrite Hps3 in Hx4.
+      specialize (IH f4 s4 Hsk4 (fun e0 H0 => Hes e0 (or_intror H0)) Hx4 Ht4 Hk4 Hcm ltac:(lia)).
+      destruct (first_some (map (fun e0 => m2 (snd e0) (skipn cmv path)) es)) as [[l v2]|].
+      * destruct IH as [tps' E]. exists tps'. rewrite Hpop, He4, E. reflexivity.
+      * destruct IH as (f5 & s5 & He5 & Hf5 & Hsk5 & Hx5 & Ht5 & Hk5).
+        exists f5, s5. split; [rewrite Hpop, He4; exact He5|]. repeat split; auto. lia.
+Qed.
+
+Lemma es_cost_le ch : forall es, (forall e, In e es -> In (snd e) ch) ->
+  List.length es <= 3 -> es_cost es <= 3 * ncost_sum ch.
+Proof.
+  intros es Hin Hlen.
+  assert (forall e, In e es -> S (ncost (snd e)) <= ncost_sum ch) as H by (intros e He; apply ncost_in; auto).
+  destruct es as [|e1 [|e2 [|e3 [|e4 es]]]]; simpl in *; try lia.
+  - pose proof (H e1 (or_introl eq_refl)). lia.
+  - pose proof (H e1 (or_introl eq_refl)). pose proof (H e2 (or_intror (or_introl eq_refl))). lia.
+  - pose proof (H e1 (or_introl eq_refl)). pose proof (H e2 (or_intror (or_introl eq_refl))).
+    pose proof (H e3 (or_intror (or_intror (or_introl eq_refl)))). lia.
+Qed.
+
+Lemma alts_nodes_len c ch : List.length (alts_nodes c ch) <= 3.
+Proof. unfold alts_nodes. destruct (first_child c ch), (first_child "{" ch), (first_child "*" ch); simpl; lia. Qed.
+
+Lemma walk_m2 path lazy : forall n pre, pwf pre n -> walk_ok path lazy n.
+Proof.
   induction n as [k r ch IH] using node_ind'. intros pre Hwf fuel s Hcur Hlt Hpkc Hpc Ht Hfuel.
-  pose proof (pwf_no_wildcard _ _ Hwf) as Hnw.
   apply pwf_inv in Hwf. destruct Hwf as (kt & Hne & Hk & Hok & Hr & Hnd & Hch).
   rewrite ncost_eq in *.
   assert (Hkl : List.length k = List.length (render kt)) by (rewrite Hk; reflexivity).
   destruct fuel as [|f1]; [lia|].
   pose proof (walk_lt' f1 path lazy s Hlt) as Hw.
   set (s0 := reset_cmn s) in *.
-  pose proof (inner_tok path lazy kt [] s0 f1) as Hin.
-  simpl app in Hin. change (cur s0) with (cur s) in Hin. rewrite Hcur in Hin. simpl nkey in Hin.
-  specialize (Hin Hk Hok eq_refl Hpkc Hpc Ht ltac:(change (cm s0) with (cm s); lia) ltac:(lia)).
+  pose proof (inner_tok path lazy (lnc r ch) kt [] s0 f1) as Hin.
+  simpl app in Hin. change (cur s0) with (cur s) in Hin. rewrite Hcur in Hin. cbn [nkey nchildren] in Hin.
+  specialize (Hin Hk eq_refl Hok (lnc_nochild r ch) eq_refl Hpkc Hpc Ht
+                  ltac:(change (cm s0) with (cm s); lia) ltac:(lia)).
   change (cm s0) with (cm s) in Hin. change (cmn s0) with 0 in Hin.
-  rewrite m2_eq, Hk, tokenize_render by (apply forallb_ptok_tok; exact Hok).
-  destruct (kmatch kt (skipn (cm s) path) []) as [rest vals| |].
+  rewrite m2_eq, Hk, tokenize_render by (eapply kt_ok_tok; exact Hok).
+  destruct (kmatch kt (skipn (cm s) path) []) as [rest vals|vals| |].
   - destruct Hin as (f2 & s' & He & Hf2 & Hc' & Hp' & Hrest & Hcm' & Hcmn' & Hsk' & Hps' & Hpc' & Ht').
     change (cmn s0) with 0 in He. change (cur s0) with (cur s) in *. change (sks s0) with (sks s) in *. change (ps s0) with (ps s) in *.
     rewrite Hcur in Hc', Hcmn'. simpl nkey in Hcmn'.
@@ -762,100 +1005,70 @@ Proof.
         -- exact Hx0.
         -- lia.
         -- lia.
-    + pose proof (skipn_cons_nth _ _ _ _ Hrest) as (Hnc & _ & Hlt').
-      pose proof (index_first "{" (cur s')) as Hpci. rewrite Hc' in Hpci. simpl nchildren in Hpci.
-      specialize (Hpci Hnd). change (last_index_from 0 "{" ch None) with (param_child_index (Node k r ch)) in Hpci.
-      rewrite <- Hc' in Hpci, Hnw.
+    + (* the path continues: children, in the order static, parameter, catch-all *)
+      pose proof (skipn_cons_nth _ _ _ _ Hrest) as (Hnc & _ & Hlt').
       assert (Hch' : nchildren (cur s') = ch) by (rewrite Hc'; reflexivity).
       rewrite Forall_forall in IH, Hch.
-      unfold m2_child.
-      destruct (first_child c ch) as [x|] eqn:Efx.
-      * pose proof (first_child_in _ _ _ Efx) as [Hinx _].
-        pose proof (IH x Hinx (pre ++ k) (Hch x Hinx)) as IHx.
-        pose proof (ncost_in x ch Hinx) as Hcx.
-        destruct f2 as [|f3]; [lia|].
-        destruct (param_child_index (cur s')) as [pi|] eqn:Epi.
-        -- destruct Hpci as [Hny Hyne]. destruct (first_child "{" ch) as [y|] eqn:Efy; [|congruence].
-           pose proof (first_child_in _ _ _ Efy) as [Hiny _].
-           pose proof (ncost_in y ch Hiny) as Hcy.
-           assert (Hsel : lbp (S f3) path lazy PSelect s' = lbp f3 path lazy PWalk (descend (push s' pi) x)).
-           { apply (select_static_push f3 path lazy s' c x pi); auto. rewrite Hch'. exact Efx. }
-           set (sd := descend (push s' pi) x) in *.
-           specialize (IHx f3 sd eq_refl Hlt' eq_refl Hpc' Ht' ltac:(lia)).
-           change (cm sd) with (cm s') in IHx. rewrite Hrest in IHx.
-           destruct (m2 x (c :: rest')) as [[l v2]|].
-           ++ destruct IHx as [tps' E]. exists tps'. rewrite Hw, He, Hsel, E.
-              change (ps sd) with (ps s'). rewrite Hps', addp_addp. reflexivity.
-           ++ destruct IHx as (f4 & s2 & He2 & Hf4 & Hsk2 & Hx2 & Ht2 & Hk2).
-              set (sk := {| sk_n := cur s'; sk_path := cm s'; sk_pcnt := pcnt s'; sk_child := pi |}) in *.
-              change (sks sd) with (sk :: sks s') in Hsk2. change (ps sd) with (ps s') in Hx2.
-              destruct f4 as [|f5]; [lia|].
-              assert (Hpop : lbp (S f5) path lazy PBack s2 = lbp f5 path lazy PWalk (popped s2 sk (sks s') y)).
-              { apply back_pop; auto.
-                - simpl. rewrite Hch'. exact Hny.
-                - simpl. rewrite Hpc'. apply extends_len. exact Hx2. }
-              set (s3 := popped s2 sk (sks s') y) in *.
-              assert (Hps3 : ps s3 = ps s').
-              { unfold s3, popped, sk; cbn [ps sk_pcnt]. rewrite Hpc'. exact Hx2. }
-              pose proof (IH y Hiny (pre ++ k) (Hch y Hiny) f5 s3 eq_refl Hlt' Hk2) as IHy.
-              rewrite Hps3 in IHy. specialize (IHy Hpc' Ht2 ltac:(lia)).
-              change (cm s3) with (cm s') in IHy. rewrite Hrest in IHy.
-              destruct (m2 y (c :: rest')) as [[l v2]|].
-              ** destruct IHy as [tps' E]. exists tps'. rewrite Hw, He, Hsel, He2, Hpop, E.
-                 rewrite Hps', addp_addp. reflexivity.
-              ** destruct IHy as (f6 & s4 & He4 & Hf6 & Hsk4 & Hx4 & Ht4 & Hk4).
-                 exists f6, s4. split; [rewrite Hw, He, Hsel, He2, Hpop; exact He4|].
-                 change (sks s3) with (sks s') in Hsk4. rewrite Hps3 in Hx4.
-                 repeat split; auto; try congruence; try lia.
-                 eapply extends_trans; eauto.
-        -- rewrite Hpci.
-           assert (Hsel : lbp (S f3) path lazy PSelect s' = lbp f3 path lazy PWalk (descend s' x)).
-           { apply (select_child f3 path lazy s' c x); auto. rewrite Hch'. exact Efx. }
-           set (sd := descend s' x) in *.
-           specialize (IHx f3 sd eq_refl Hlt' eq_refl Hpc' Ht' ltac:(lia)).
-           change (cm sd) with (cm s') in IHx. rewrite Hrest in IHx.
-           destruct (m2 x (c :: rest')) as [[l v2]|].
-           ++ destruct IHx as [tps' E]. exists tps'. rewrite Hw, He, Hsel, E.
-              change (ps sd) with (ps s'). rewrite Hps', addp_addp. reflexivity.
-           ++ destruct IHx as (f4 & s2 & He2 & Hf4 & Hsk2 & Hx2 & Ht2 & Hk2).
-              exists f4, s2. split; [rewrite Hw, He, Hsel; exact He2|].
-              change (sks sd) with (sks s') in Hsk2. change (ps sd) with (ps s') in Hx2.
-              repeat split; auto; try congruence; try lia.
-              eapply extends_trans; eauto.
-      * destruct f2 as [|f3]; [lia|].
-        destruct (param_child_index (cur s')) as [pi|] eqn:Epi.
-        -- destruct Hpci as [Hny Hyne]. destruct (first_child "{" ch) as [y|] eqn:Efy; [|congruence].
-           pose proof (first_child_in _ _ _ Efy) as [Hiny _].
-           pose proof (ncost_in y ch Hiny) as Hcy.
-           destruct (select_param f3 path lazy s' c y pi) as (s1 & Hsel & Hcore & Ht1 & Hpc1); auto.
-           { rewrite Hch'. exact Efx. }
-           { rewrite Hch'. exact Hny. }
-           destruct Hcore as (Hc1 & _ & Hcm1 & _ & Hsk1 & Hps1).
-           set (sd := descend s1 y) in *.
-           pose proof (IH y Hiny (pre ++ k) (Hch y Hiny) f3 sd eq_refl) as IHy.
-           change (cm sd) with (cm s1) in IHy. rewrite Hcm1 in IHy.
-           change (ps sd) with (ps s1) in IHy. change (pcnt sd) with (pcnt s1) in IHy.
-           rewrite Hps1, Hpc1 in IHy.
-           specialize (IHy Hlt' eq_refl Hpc' Ht1 ltac:(lia)). rewrite Hrest in IHy.
-           destruct (m2 y (c :: rest')) as [[l v2]|].
-           ++ destruct IHy as [tps' E]. exists tps'. rewrite Hw, He, Hsel, E.
+      destruct f2 as [|f3]; [lia|].
+      destruct (select_alts f3 path lazy s' c Hlt' Hnc) as (s1 & es & Hmap & Hnth & Hcore & Ht1 & Hpc1 & Hsel); auto.
+      { rewrite Hch'. exact Hnd. }
+      rewrite Hch' in Hmap, Hnth.
+      destruct Hcore as (Hc1 & _ & Hcm1 & _ & Hsk1 & Hps1).
+      rewrite alts_first_some, <- Hmap, map_map.
+      assert (Hes : forall e, In e es -> nth_error (nchildren (cur s1)) (fst e) = Some (snd e) /\ walk_ok path lazy (snd e)).
+      { intros e He0. pose proof (Hnth e He0) as Hn. split; [rewrite Hc1, Hch'; exact Hn|].
+        apply nth_error_In in Hn. apply (IH _ Hn (pre ++ k)). apply Hch; exact Hn. }
+      assert (Hescost : es_cost es <= 3 * ncost_sum ch).
+      { apply es_cost_le.
+        - intros e He0. eapply nth_error_In. apply Hnth; exact He0.
+        - rewrite <- (map_length snd), Hmap. apply alts_nodes_len. }
+      destruct es as [|e1 rest].
+      * (* no child to try *)
+        cbn [map first_some with_vals].
+        eapply (backs_step path lazy (S f1) PWalk s _ f3 PAfter s1 1 (List.length k + 4)).
+        -- rewrite Hw, He, Hsel. reflexivity.
+        -- apply backs_after; auto; try lia. apply cm_lt_nofound. lia.
+        -- congruence.
+        -- rewrite Hps1. exact Hx0.
+        -- lia.
+        -- lia.
+      * cbn [map first_some].
+        set (sd := descend (push_all s1 (map fst rest)) (snd e1)) in *.
+        destruct (push_all_core s1 (map fst rest)) as (Hq1 & Hq2 & Hq3 & Hq4 & Hq5 & Hq6 & Hq7 & Hq8 & Hq9).
+        destruct (Hes e1 (or_introl eq_refl)) as [_ Hwalk1].
+        cbn [es_cost] in Hescost.
+        pose proof (Hwalk1 f3 sd eq_refl) as H1.
+        change (cm sd) with (cm (push_all s1 (map fst rest))) in H1.
+        change (ps sd) with (ps (push_all s1 (map fst rest))) in H1.
+        change (pcnt sd) with (pcnt (push_all s1 (map fst rest))) in H1.
+        rewrite Hq3, Hq5, Hq7, Hcm1, Hps1, Hpc1 in H1.
+        assert (Htd : tinv sd).
+        { unfold tinv. change (tsr sd) with (tsr (push_all s1 (map fst rest))).
+          change (tn sd) with (tn (push_all s1 (map fst rest))). rewrite Hq8, Hq9. exact Ht1. }
+        specialize (H1 Hlt' eq_refl Hpc' Htd ltac:(lia)). rewrite Hrest in H1.
+        destruct (m2 (snd e1) (c :: rest')) as [[l v2]|].
+        -- cbn [alt with_vals]. destruct H1 as [tps' E]. exists tps'. rewrite Hw, He, Hsel, E.
+           rewrite Hps', addp_addp. reflexivity.
+        -- cbn [alt].
+           destruct H1 as (f4 & s2 & He2 & Hf4 & Hsk2 & Hx2 & Ht2 & Hk2).
+           change (sks sd) with (sks (push_all s1 (map fst rest))) in Hsk2. rewrite push_all_sks in Hsk2.
+           change (ps sd) with (ps (push_all s1 (map fst rest))) in Hx2. rewrite Hq7, Hps1 in Hx2.
+           pose proof (pop_alts path lazy (cur s1) (cm s1) (ps s') (sks s1) rest f4 s2) as Hpop.
+           assert (Hsk2' : sks s2 = map (fun e => {| sk_n := cur s1; sk_path := cm s1; sk_pcnt := List.length (ps s');
+                                                      sk_child := fst e |}) rest ++ sks s1).
+           { rewrite Hsk2, map_map. unfold entry. rewrite Hpc1, Hpc'. reflexivity. }
+           specialize (Hpop Hsk2' (fun e0 H0 => Hes e0 (or_intror H0)) Hx2 Ht2 Hk2 ltac:(lia) ltac:(lia)).
+           rewrite Hcm1, Hrest in Hpop.
+           destruct (first_some (map (fun e => m2 (snd e) (c :: rest')) rest)) as [[l v2]|].
+           ++ cbn [with_vals]. destruct Hpop as [tps' E]. exists tps'. rewrite Hw, He, Hsel, He2, E.
               rewrite Hps', addp_addp. reflexivity.
-           ++ destruct IHy as (f4 & s2 & He2 & Hf4 & Hsk2 & Hx2 & Ht2 & Hk2).
-              exists f4, s2. split; [rewrite Hw, He, Hsel; exact He2|].
-              change (sks sd) with (sks s1) in Hsk2. change (ps sd) with (ps s1) in Hx2. rewrite Hps1 in Hx2.
+           ++ cbn [with_vals]. destruct Hpop as (f5 & s5 & He5 & Hf5 & Hsk5 & Hx5 & Ht5 & Hk5).
+              exists f5, s5. split; [rewrite Hw, He, Hsel, He2; exact He5|].
               repeat split; auto; try congruence; try lia.
               eapply extends_trans; eauto.
-        -- rewrite Hpci.
-           destruct (select_none f3 path lazy s' c) as (s1 & Hsel & Hcore & Ht1); auto.
-           { rewrite Hch'. exact Efx. }
-           destruct Hcore as (Hc1 & _ & Hcm1 & _ & Hsk1 & Hps1).
-           eapply (backs_step path lazy (S f1) PWalk s _ f3 PAfter s1 1 (List.length k + 4)).
-           ++ rewrite Hw, He, Hsel. reflexivity.
-           ++ apply backs_after; auto; try lia. apply cm_lt_nofound. lia.
-           ++ congruence.
-           ++ rewrite Hps1. exact Hx0.
-           ++ lia.
-           ++ lia.
+  - (* suffix catch-all inside this key *)
+    destruct Hin as [tps' E]. change (cur s0) with (cur s) in E. change (ps s0) with (ps s) in E.
+    exists tps'. rewrite Hw, E, <- Hk. reflexivity.
   - eapply (backs_step path lazy (S f1) PWalk s _ f1 _ s0 _ 1); [exact Hw|exact Hin|reflexivity|apply extends_refl|lia|lia].
   - eapply (backs_step path lazy (S f1) PWalk s _ f1 _ s0 _ 1); [exact Hw|exact Hin|reflexivity|apply extends_refl|lia|lia].
 Qed.
@@ -875,7 +1088,7 @@ Proof.
   intros Hwf Hf. unfold lookup_by_path, m2_fuel in *.
   destruct path as [|c path].
   - destruct t as [k r ch]. pose proof (pwf_inv _ _ _ _ Hwf) as (kt & Hne & Hk & Hok & _).
-    subst k. rewrite m2_eq, tokenize_render by (apply forallb_ptok_tok; exact Hok).
+    subst k. rewrite m2_eq, tokenize_render by (eapply kt_ok_tok; exact Hok).
     destruct kt as [|t0 kt]; [congruence|]. cbn [kmatch].
     rewrite ncost_eq in Hf. destruct fuel as [|[|[|f]]]; try lia.
     rewrite walk_ge by (simpl; lia).
@@ -946,8 +1159,18 @@ Proof. unfold cands, adv_catch. induction (below r ch) as [|k l IH]; simpl; auto
 Lemma adv_catch_cands_param nm kt r ch : adv_catch (cands (TParam nm :: kt) r ch) = [].
 Proof. unfold cands, adv_catch. induction (below r ch) as [|k l IH]; simpl; auto. Qed.
 
+Lemma adv_static_cands_catch c nm kt r ch : adv_static c (cands (TCatch nm :: kt) r ch) = [].
+Proof. unfold cands, adv_static. induction (below r ch) as [|k l IH]; simpl; auto. Qed.
+Lemma adv_param_cands_catch nm kt r ch : adv_param (cands (TCatch nm :: kt) r ch) = [].
+Proof. unfold cands, adv_param. induction (below r ch) as [|k l IH]; simpl; auto. Qed.
+Lemma adv_catch_cands_catch nm kt r ch : adv_catch (cands (TCatch nm :: kt) r ch) = cands kt r ch.
+Proof. unfold cands, adv_catch. induction (below r ch) as [|k l IH]; simpl; auto. rewrite IH. reflexivity. Qed.
+
 Lemma leaf_cands_cons t kt r ch : leaf (cands (t :: kt) r ch) = None.
 Proof. unfold cands, leaf. induction (below r ch) as [|k l IH]; simpl; auto. Qed.
+
+Lemma flat_map_nil_in {A B} (f : A -> list B) l : (forall x, In x l -> f x = []) -> flat_map f l = [].
+Proof. induction l as [|x l IH]; simpl; auto. intros H. rewrite (H x) by auto. apply IH. auto. Qed.
 
 Lemma sbyte_split c : sbyte c = true -> Ascii.eqb c "{" = false /\ Ascii.eqb c "*" = false.
 Proof. unfold sbyte. intros H. apply andb_prop in H. destruct H as [H1 H2]. apply negb_true_iff in H1, H2. auto. Qed.
@@ -990,6 +1213,48 @@ Proof.
     destruct (select f (cands kt r ch) _ 0 _); reflexivity.
 Qed.
 
+(* ---- suffix catch-all on the S side ---- *)
+Lemma select_done_nonempty fuel cs c r vals :
+  (forall k, In k cs -> toks k = []) -> select fuel cs (c :: r) 0 vals = None.
+Proof.
+  intros H. destruct fuel as [|f]; [reflexivity|]. cbn [select].
+  assert (adv_static c cs = [] /\ adv_param cs = [] /\ adv_catch cs = []) as (-> & -> & ->).
+  { unfold adv_static, adv_param, adv_catch. repeat split; apply flat_map_nil_in; intros k Hk; rewrite (H k Hk); reflexivity. }
+  cbn [Nat.eqb negb]. unfold orelse. destruct (Ascii.eqb c "{" || Ascii.eqb c "*"); reflexivity.
+Qed.
+
+Lemma try_splits_S {A} k i s (F : bytes -> bytes -> option A) :
+  try_splits (S k) i s F =
+  orelse (if split_ok s i then F (firstn i s) (skipn i s) else None) (fun _ => try_splits k (S i) s F).
+Proof. reflexivity. Qed.
+
+Lemma try_splits_suffix {A} (F : bytes -> bytes -> option A) s : forall d i,
+  (forall j, j < List.length s -> F (firstn j s) (skipn j s) = None) ->
+  i + d = List.length s -> 1 <= i ->
+  try_splits (S d) i s F = F s [].
+Proof.
+  induction d as [|d IH]; intros i HF Hi H1.
+  - rewrite try_splits_S. unfold split_ok. replace i with (List.length s) by lia.
+    rewrite skipn_all, firstn_all. unfold orelse. simpl. destruct (F s []); reflexivity.
+  - rewrite try_splits_S. rewrite (IH (S i)) by (auto; lia).
+    unfold orelse. destruct (split_ok s i); [|reflexivity]. rewrite HF by lia. reflexivity.
+Qed.
+
+Lemma select_catch_last f rt c p' vals (cs' : list cand) :
+  cs' = [{| pat := rpat rt; toks := [] |}] ->
+  try_splits (List.length (c :: p')) 1 (c :: p') (fun v rest => select (S f) cs' rest 0 (v :: vals)) =
+  Some (rpat rt, rev ((c :: p') :: vals)).
+Proof.
+  intros ->. change (List.length (c :: p')) with (S (List.length p')).
+  rewrite (try_splits_suffix _ (c :: p') (List.length p') 1).
+  - reflexivity.
+  - intros j Hj. destruct (skipn j (c :: p')) as [|x r] eqn:E.
+    + apply skipn_nil_len in E. lia.
+    + apply select_done_nonempty. intros k [<-|[]]. reflexivity.
+  - simpl. lia.
+  - lia.
+Qed.
+
 (* ---- advancing the candidates below a node ---- *)
 Lemma adv_static_app c a b : adv_static c (a ++ b) = adv_static c a ++ adv_static c b.
 Proof. unfold adv_static. apply flat_map_app. Qed.
@@ -1028,10 +1293,12 @@ Qed.
 Definition tl_cands (x : node) : list cand := cands (tl (tokenize (nkey x))) (nroute x) (nchildren x).
 
 Lemma pwf_tokens pre x : pwf pre x ->
-  exists t kt, tokenize (nkey x) = t :: kt /\ nkey x = render (t :: kt) /\ forallb ptok_ok (t :: kt) = true.
+  exists t kt, tokenize (nkey x) = t :: kt /\ nkey x = render (t :: kt) /\
+               kt_ok (lnc (nroute x) (nchildren x)) (t :: kt) = true.
 Proof.
   destruct x as [k r ch]. intros H. apply pwf_inv in H. destruct H as (kt & Hne & -> & Hok & _).
-  destruct kt as [|t kt]; [congruence|]. exists t, kt. cbn [nkey]. rewrite tokenize_render by (apply forallb_ptok_tok; auto). auto.
+  destruct kt as [|t kt]; [congruence|]. exists t, kt. cbn [nkey nroute nchildren].
+  rewrite tokenize_render by (eapply kt_ok_tok; eauto). auto.
 Qed.
 
 Lemma cands_of_tokens x : cands_of x = cands (tokenize (nkey x)) (nroute x) (nchildren x).
@@ -1042,35 +1309,41 @@ Lemma adv_static_child c pre x : pwf pre x -> sbyte c = true ->
 Proof.
   intros Hwf Hc. destruct (pwf_tokens _ _ Hwf) as (t & kt & Ht & Hk & Hok).
   unfold tl_cands. rewrite cands_of_tokens, Ht, Hk. simpl tl.
-  simpl in Hok. apply andb_prop in Hok. destruct Hok as [Hok _].
-  destruct t as [d|nm|nm]; simpl in Hok; [| |discriminate].
+  destruct (sbyte_split c Hc) as [H1 H2].
+  destruct t as [d|nm|nm].
   - rewrite adv_static_cands_static. change (render (TStatic d :: kt)) with (d :: render kt).
     cbn [starts_with]. rewrite (Ascii.eqb_sym d c). reflexivity.
   - rewrite adv_static_cands_param. change (render (TParam nm :: kt)) with ("{" :: (nm ++ ["}"]) ++ render kt).
-    cbn [starts_with]. destruct (sbyte_split c Hc) as [H1 _].
-    rewrite Ascii.eqb_sym, H1. reflexivity.
+    cbn [starts_with]. rewrite Ascii.eqb_sym, H1. reflexivity.
+  - rewrite adv_static_cands_catch. change (render (TCatch nm :: kt)) with ("*" :: "{" :: (nm ++ ["}"]) ++ render kt).
+    cbn [starts_with]. rewrite Ascii.eqb_sym, H2. reflexivity.
 Qed.
+
+Lemma kt_ok_head_static b d kt : kt_ok b (TStatic d :: kt) = true -> sbyte d = true.
+Proof. intros H. apply kt_ok_cons in H. destruct H as [[H _]|(nm & H & _)]; [exact H|discriminate]. Qed.
 
 Lemma adv_param_child pre x : pwf pre x ->
   adv_param (cands_of x) = if starts_with "{" (nkey x) then tl_cands x else [].
 Proof.
   intros Hwf. destruct (pwf_tokens _ _ Hwf) as (t & kt & Ht & Hk & Hok).
   unfold tl_cands. rewrite cands_of_tokens, Ht, Hk. simpl tl.
-  simpl in Hok. apply andb_prop in Hok. destruct Hok as [Hok _].
-  destruct t as [d|nm|nm]; simpl in Hok; [| |discriminate].
+  destruct t as [d|nm|nm].
   - rewrite adv_param_cands_static. change (render (TStatic d :: kt)) with (d :: render kt).
-    cbn [starts_with]. destruct (sbyte_split d Hok) as [H1 _]. rewrite H1. reflexivity.
+    cbn [starts_with]. destruct (sbyte_split d (kt_ok_head_static _ _ _ Hok)) as [H1 _]. rewrite H1. reflexivity.
   - rewrite adv_param_cands_param. reflexivity.
+  - rewrite adv_param_cands_catch. reflexivity.
 Qed.
 
-Lemma adv_catch_child pre x : pwf pre x -> adv_catch (cands_of x) = [].
+Lemma adv_catch_child pre x : pwf pre x ->
+  adv_catch (cands_of x) = if starts_with "*" (nkey x) then tl_cands x else [].
 Proof.
   intros Hwf. destruct (pwf_tokens _ _ Hwf) as (t & kt & Ht & Hk & Hok).
-  rewrite cands_of_tokens, Ht.
-  simpl in Hok. apply andb_prop in Hok. destruct Hok as [Hok _].
-  destruct t as [d|nm|nm]; simpl in Hok; [| |discriminate].
-  - apply adv_catch_cands_static.
-  - apply adv_catch_cands_param.
+  unfold tl_cands. rewrite cands_of_tokens, Ht, Hk. simpl tl.
+  destruct t as [d|nm|nm].
+  - rewrite adv_catch_cands_static. change (render (TStatic d :: kt)) with (d :: render kt).
+    cbn [starts_with]. destruct (sbyte_split d (kt_ok_head_static _ _ _ Hok)) as [_ H2]. rewrite H2. reflexivity.
+  - rewrite adv_catch_cands_param. reflexivity.
+  - rewrite adv_catch_cands_catch. reflexivity.
 Qed.
 
 Lemma leaf_none cs : (forall k, In k cs -> toks k <> []) -> leaf cs = None.
@@ -1098,18 +1371,25 @@ Lemma select_below pre f r ch c p' vals :
             match first_child c ch with Some x => select f (tl_cands x) p' 0 vals | None => None end
           else None)
     (fun _ =>
-       match first_child "{" ch with
-       | Some y => match seg is_slash (c :: p') with
-                   | [] => None
-                   | v => select f (tl_cands y) (skipn (List.length v) (c :: p')) 0 (v :: vals)
-                   end
-       | None => None
-       end).
+     orelse
+       (match first_child "{" ch with
+        | Some y => match seg is_slash (c :: p') with
+                    | [] => None
+                    | a :: l => select f (tl_cands y) (skipn (List.length (a :: l)) (c :: p')) 0 ((a :: l) :: vals)
+                    end
+        | None => None
+        end)
+       (fun _ =>
+        match first_child "*" ch with
+        | Some w => try_splits (List.length (c :: p')) 1 (c :: p')
+                      (fun v rest => select f (tl_cands w) rest 0 (v :: vals))
+        | None => None
+        end)).
 Proof.
   intros Hnd Hch. cbn [select]. cbn [Nat.eqb negb pred].
   destruct (adv_own c r) as (Ho1 & Ho2 & Ho3).
-  assert (Hcatch : adv_catch (below r ch) = []).
-  { unfold below. rewrite adv_catch_app, Ho3, adv_catch_flat. simpl. apply flat_map_nil.
+  assert (Hcatch : adv_catch (below r ch) = match first_child "*" ch with Some w => tl_cands w | None => [] end).
+  { unfold below. rewrite adv_catch_app, Ho3, adv_catch_flat. simpl. apply flat_map_first; auto.
     intros x Hx. eapply adv_catch_child; eauto. }
   assert (Hparam : adv_param (below r ch) = match first_child "{" ch with Some y => tl_cands y | None => [] end).
   { unfold below. rewrite adv_param_app, Ho2, adv_param_flat. simpl. apply flat_map_first; auto.
@@ -1128,7 +1408,7 @@ Proof.
                match first_child "{" ch with
                | Some y => match seg is_slash (c :: p') with
                            | [] => None
-                           | v => select f (tl_cands y) (skipn (List.length v) (c :: p')) 0 (v :: vals)
+                           | a :: l => select f (tl_cands y) (skipn (List.length (a :: l)) (c :: p')) 0 ((a :: l) :: vals)
                            end
                | None => None
                end).
@@ -1137,10 +1417,22 @@ Proof.
     - destruct (tl_cands y); reflexivity.
     - replace (0 - List.length (a :: l0)) with 0 by lia.
       destruct (tl_cands y) eqn:E; [rewrite select_nil; reflexivity|reflexivity]. }
-  unfold orelse at 2.
-  assert (HC : forall (x : option (bytes * list bytes)), match x with Some _ => x | None => None end = x)
-    by (intros [?|]; reflexivity).
-  rewrite HC, HB. clear HB HC.
+  assert (HC : match match first_child "*" ch with Some w => tl_cands w | None => [] end with
+               | [] => None
+               | c0 :: l => try_splits (List.length (c :: p')) 1 (c :: p')
+                              (fun v rest => select f (c0 :: l) rest 0 (v :: vals))
+               end =
+               match first_child "*" ch with
+               | Some w => try_splits (List.length (c :: p')) 1 (c :: p')
+                             (fun v rest => select f (tl_cands w) rest 0 (v :: vals))
+               | None => None
+               end).
+  { destruct (first_child "*" ch) as [w|]; [|reflexivity].
+    destruct (tl_cands w) eqn:E; [|reflexivity].
+    symmetry. clear. generalize 1 at 1. generalize (List.length (c :: p')).
+    induction n as [|n IH]; intros i; [reflexivity|]. rewrite try_splits_S, IH. unfold orelse.
+    destruct (split_ok (c :: p') i); [rewrite select_nil|]; reflexivity. }
+  rewrite HB, HC. clear HB HC.
   destruct (sbyte c) eqn:Es.
   - destruct (sbyte_split c Es) as [-> ->]. cbn [orb].
     assert (Hstatic : adv_static c (below r ch) = match first_child c ch with Some x => tl_cands x | None => [] end).
@@ -1149,4 +1441,425 @@ Proof.
     rewrite Hstatic. destruct (first_child c ch) as [x|]; [|reflexivity].
     rewrite match_nil_select. reflexivity.
   - rewrite (sbyte_false c Es). reflexivity.
+Qed.
+
+Definition lpat (l : node) : bytes := match nroute l with Some rt => rpat rt | None => [] end.
+Definition res_of (vals : list bytes) (r : mres) : option (bytes * list bytes) :=
+  match r with Some (l, kvs) => Some (lpat l, rev vals ++ map snd kvs) | None => None end.
+
+Definition fin (n : node) (kr : kres) : mres :=
+  match kr with
+  | KDone [] vals => match nroute n with Some _ => Some (n, vals) | None => None end
+  | KDone (c :: rest) vals =>
+      with_vals vals (alt (m2_child c (nchildren n) (c :: rest))
+                        (alt (m2_child "{" (nchildren n) (c :: rest)) (m2_child "*" (nchildren n) (c :: rest))))
+  | KCatch vals => Some (n, vals)
+  | _ => None
+  end.
+Definition m2k (n : node) (kt : list token) (p : bytes) : mres := fin n (kmatch kt p []).
+
+Lemma m2_m2k n p : m2 n p = m2k n (tokenize (nkey n)) p.
+Proof.
+  destruct n as [k r ch]. rewrite m2_eq. unfold m2k, fin. simpl.
+  destruct (kmatch (tokenize k) p []) as [[|c rest] vals|vals| |]; reflexivity.
+Qed.
+
+Lemma with_vals_app a b r : with_vals (a ++ b) r = with_vals a (with_vals b r).
+Proof. destruct r as [[l v]|]; simpl; auto. rewrite app_assoc. reflexivity. Qed.
+
+Lemma fin_pre n pre kr : fin n (kres_pre pre kr) = with_vals pre (fin n kr).
+Proof.
+  destruct kr as [[|c rest] vals|vals| |]; simpl; auto.
+  - destruct (nroute n); reflexivity.
+  - apply with_vals_app.
+Qed.
+
+Lemma res_of_with_vals vals nm v r : res_of vals (with_vals [(nm, v)] r) = res_of (v :: vals) r.
+Proof. destruct r as [[l kvs]|]; simpl; auto. rewrite <- app_assoc. reflexivity. Qed.
+
+Lemma with_vals_nil r : with_vals [] r = r.
+Proof. destruct r as [[l kvs]|]; reflexivity. Qed.
+
+Lemma res_of_alt vals a b : res_of vals (alt a b) = orelse (res_of vals a) (fun _ => res_of vals b).
+Proof. destruct a as [[l kvs]|]; reflexivity. Qed.
+
+(* side condition of stage 3: the request has no '*' byte, or the tree has no catch-all at all.
+   (With a '*' byte fox looks the catch-all child up as a static edge and tries it BEFORE the
+   parameter child: M1_eq_Spec_catchall_refuted in Props_C01_static.v.) *)
+Definition nostar (p : bytes) : bool := forallb (fun c => negb (Ascii.eqb c "*")) p.
+Fixpoint plain (n : node) : bool :=
+  match n with Node k _ ch => forallb ptok_ok (tokenize k) && forallb plain ch end.
+
+Lemma nostar_skipn p : forall j, nostar p = true -> nostar (skipn j p) = true.
+Proof.
+  induction p as [|c p IH]; intros j H; destruct j; simpl; auto.
+  simpl in H. apply andb_prop in H. destruct H as [_ H]. apply IH; auto.
+Qed.
+
+Lemma plain_no_star x : plain x = true -> starts_with "*" (nkey x) = false.
+Proof.
+  destruct x as [k r ch]. cbn [plain nkey]. intros H. apply andb_prop in H. destruct H as [H _].
+  destruct k as [|c k]; [reflexivity|]. cbn [starts_with].
+  destruct (Ascii.eqb c "*") eqn:E; [|reflexivity]. apply Ascii.eqb_eq in E. subst c.
+  destruct k as [|c2 k].
+  - discriminate.
+  - destruct (Ascii.eqb c2 "{") eqn:E2.
+    + apply Ascii.eqb_eq in E2. subst c2. unfold tokenize in H. cbn [tokenize_fuel List.length] in H.
+      destruct (take_name k) as [nm r'] eqn:Et. simpl in H. discriminate.
+    + unfold tokenize in H.
+      assert (tokenize_fuel (S (List.length ("*" :: c2 :: k))) ("*" :: c2 :: k) =
+              TStatic "*" :: tokenize_fuel (List.length ("*" :: c2 :: k)) (c2 :: k)) as Hs.
+      { destruct c2 as [[] [] [] [] [] [] [] []]; try reflexivity; discriminate. }
+      rewrite Hs in H. simpl in H. discriminate.
+Qed.
+
+Lemma m2k_select : forall n pre, pwf pre n ->
+  forall kt fuel p vals, kt_ok (lnc (nroute n) (nchildren n)) kt = true -> List.length p + 1 < fuel ->
+  nostar p = true \/ plain n = true ->
+  select fuel (cands kt (nroute n) (nchildren n)) p 0 vals = res_of vals (m2k n kt p).
+Proof.
+  induction n as [k r ch IH] using node_ind'. intros pre Hwf.
+  apply pwf_inv in Hwf. destruct Hwf as (kt0 & Hne0 & Hk0 & Hok0 & Hr & Hnd & Hch).
+  rewrite Forall_forall in IH, Hch. cbn [nroute nchildren].
+  assert (Hplain : forall p x, In x ch -> nostar p = true \/ plain (Node k r ch) = true ->
+                   nostar p = true \/ plain x = true).
+  { intros p x Hx [H|H]; [left; exact H|right]. cbn [plain] in H. apply andb_prop in H. destruct H as [_ H].
+    rewrite forallb_forall in H. apply H; exact Hx. }
+  induction kt as [|t kt IHkt]; intros fuel p vals Hok Hf Hs.
+  - rewrite cands_nil. unfold m2k. cbn [kmatch].
+    destruct fuel as [|f]; [lia|].
+    destruct p as [|c p'].
+    + cbn [select fin nroute]. destruct r as [rt|].
+      * simpl. rewrite app_nil_r. reflexivity.
+      * unfold below. simpl own. simpl app. rewrite leaf_none; [reflexivity|].
+        intros k0 Hk0'. apply in_flat_map in Hk0'. destruct Hk0' as (x & Hx & Hk0').
+        eapply cands_of_toks; eauto.
+    + rewrite (select_below (pre ++ k)) by auto.
+      cbn [fin nchildren]. rewrite with_vals_nil, !res_of_alt.
+      assert (Hstat : forall x, first_child c ch = Some x -> sbyte c = true ->
+                select f (tl_cands x) p' 0 vals = res_of vals (m2 x (c :: p'))).
+      { intros x Hx Hc. apply first_child_in in Hx. destruct Hx as [Hinx Hsw].
+        destruct (pwf_tokens _ _ (Hch x Hinx)) as (t & kt' & Htk & Hkx & Hokx).
+        rewrite m2_m2k, Htk. unfold tl_cands. rewrite Htk. simpl tl.
+        rewrite Hkx in Hsw. destruct (sbyte_split c Hc) as [Hc1 Hc2].
+        destruct t as [d|nm|nm].
+        - change (render (TStatic d :: kt')) with (d :: render kt') in Hsw. cbn [starts_with] in Hsw.
+          apply Ascii.eqb_eq in Hsw. subst d.
+          destruct (kt_ok_cons _ _ _ Hokx) as [[_ Hokx']|(nm & Hbad & _)]; [|discriminate].
+          assert (Hs' : nostar p' = true \/ plain x = true).
+          { apply (Hplain p' x Hinx). destruct Hs as [Hs|Hs]; [left|right; exact Hs].
+            simpl in Hs. apply andb_prop in Hs. tauto. }
+          rewrite (IH x Hinx (pre ++ k) (Hch x Hinx) kt' f p' vals Hokx') by (auto; simpl in Hf; lia).
+          unfold m2k. cbn [kmatch]. rewrite Ascii.eqb_refl, Hc. reflexivity.
+        - change (render (TParam nm :: kt')) with ("{" :: (nm ++ ["}"]) ++ render kt') in Hsw. cbn [starts_with] in Hsw.
+          apply Ascii.eqb_eq in Hsw. subst c. discriminate.
+        - change (render (TCatch nm :: kt')) with ("*" :: "{" :: (nm ++ ["}"]) ++ render kt') in Hsw. cbn [starts_with] in Hsw.
+          apply Ascii.eqb_eq in Hsw. subst c. discriminate. }
+      assert (Hpar : match first_child "{" ch with
+                     | Some y => match seg is_slash (c :: p') with
+                                 | [] => None
+                                 | a :: l => select f (tl_cands y) (skipn (List.length (a :: l)) (c :: p')) 0 ((a :: l) :: vals)
+                                 end
+                     | None => None
+                     end = res_of vals (m2_child "{" ch (c :: p'))).
+      { unfold m2_child. destruct (first_child "{" ch) as [y|] eqn:Ey; [|reflexivity].
+        apply first_child_in in Ey. destruct Ey as [Hiny Hsw].
+        destruct (pwf_tokens _ _ (Hch y Hiny)) as (t & kt' & Htk & Hky & Hoky).
+        rewrite m2_m2k, Htk. unfold tl_cands. rewrite Htk. simpl tl.
+        rewrite Hky in Hsw. destruct t as [d|nm|nm].
+        - change (render (TStatic d :: kt')) with (d :: render kt') in Hsw. cbn [starts_with] in Hsw.
+          apply Ascii.eqb_eq in Hsw. subst d. pose proof (kt_ok_head_static _ _ _ Hoky). discriminate.
+        - destruct (kt_ok_cons _ _ _ Hoky) as [[_ Hoky']|(nm' & Hbad & _)]; [|discriminate].
+          unfold m2k. cbn [kmatch].
+          destruct (seg is_slash (c :: p')) as [|v0 vv] eqn:Ev; [reflexivity|].
+          rewrite kmatch_acc, fin_pre. simpl app. rewrite res_of_with_vals.
+          apply (IH y Hiny (pre ++ k) (Hch y Hiny)); auto.
+          + rewrite skipn_length. simpl in Hf |- *. lia.
+          + apply (Hplain _ y Hiny). destruct Hs as [Hs|Hs]; [left|right; exact Hs]. apply nostar_skipn; exact Hs.
+        - change (render (TCatch nm :: kt')) with ("*" :: "{" :: (nm ++ ["}"]) ++ render kt') in Hsw. cbn [starts_with] in Hsw.
+          discriminate. }
+      assert (Hcat : match first_child "*" ch with
+                     | Some w => try_splits (List.length (c :: p')) 1 (c :: p')
+                                   (fun v rest => select f (tl_cands w) rest 0 (v :: vals))
+                     | None => None
+                     end = res_of vals (m2_child "*" ch (c :: p'))).
+      { unfold m2_child. destruct (first_child "*" ch) as [w|] eqn:Ew; [|reflexivity].
+        apply first_child_in in Ew. destruct Ew as [Hinw Hsw].
+        destruct (pwf_tokens _ _ (Hch w Hinw)) as (t & kt' & Htk & Hkw & Hokw).
+        rewrite m2_m2k, Htk. unfold tl_cands. rewrite Htk. simpl tl.
+        rewrite Hkw in Hsw. destruct t as [d|nm|nm].
+        - change (render (TStatic d :: kt')) with (d :: render kt') in Hsw. cbn [starts_with] in Hsw.
+          apply Ascii.eqb_eq in Hsw. subst d. pose proof (kt_ok_head_static _ _ _ Hokw). discriminate.
+        - change (render (TParam nm :: kt')) with ("{" :: (nm ++ ["}"]) ++ render kt') in Hsw. cbn [starts_with] in Hsw.
+          discriminate.
+        - destruct (kt_ok_cons _ _ _ Hokw) as [[Hbad _]|(nm' & Hnm & -> & Hnok & Hlnc)]; [discriminate|].
+          destruct w as [kw rw chw]. cbn [nroute nchildren] in *.
+          pose proof (lnc_nochild _ _ Hlnc) as ->. destruct rw as [rtw|]; [|discriminate].
+          destruct f as [|f']; [simpl in Hf; lia|].
+          rewrite (select_catch_last f' rtw c p' vals) by reflexivity.
+          unfold m2k. cbn [kmatch fin res_of]. unfold lpat. simpl. reflexivity. }
+      rewrite Hpar, Hcat.
+      destruct (sbyte c) eqn:Es.
+      * assert (Hc1 : m2_child c ch (c :: p') = match first_child c ch with Some x => m2 x (c :: p') | None => None end)
+          by reflexivity.
+        rewrite Hc1. clear Hc1. destruct (first_child c ch) as [x|] eqn:Ex.
+        -- rewrite (Hstat x eq_refl eq_refl). reflexivity.
+        -- reflexivity.
+      * unfold orelse at 1.
+        apply sbyte_false in Es. apply orb_prop in Es. destruct Es as [Es|Es]; apply Ascii.eqb_eq in Es; subst c.
+        -- unfold orelse. destruct (res_of vals (m2_child "{" ch ("{" :: p'))); reflexivity.
+        -- destruct Hs as [Hs|Hs]; [simpl in Hs; discriminate|].
+           assert (first_child "*" ch = None) as Hns.
+           { destruct (first_child "*" ch) as [x|] eqn:Ex; auto. apply first_child_in in Ex.
+             destruct Ex as [Hinx Hsw]. destruct (Hplain [] x Hinx (or_intror Hs)) as [Hb|Hb].
+             - rewrite (plain_no_star x) in Hsw; [discriminate|].
+               cbn [plain] in Hs. apply andb_prop in Hs. destruct Hs as [_ Hs]. rewrite forallb_forall in Hs. auto.
+             - rewrite (plain_no_star x Hb) in Hsw. discriminate. }
+           assert (Hc1 : m2_child "*" ch ("*" :: p') = match first_child "*" ch with Some x => m2 x ("*" :: p') | None => None end)
+             by reflexivity.
+           rewrite Hc1, Hns. reflexivity.
+  - destruct fuel as [|f]; [lia|].
+    destruct p as [|c p'].
+    + rewrite select_cands_short. reflexivity.
+    + destruct (kt_ok_cons _ _ _ Hok) as [[Hokt Hok']|(nm' & -> & -> & Hnok & Hlnc)].
+      * destruct t as [d|nm|nm]; simpl in Hokt; [| |discriminate].
+        -- rewrite select_cands_static. unfold m2k. cbn [kmatch].
+           destruct (Ascii.eqb d c && sbyte c); [|reflexivity].
+           apply IHkt; auto; [simpl in Hf; lia|].
+           destruct Hs as [Hs|Hs]; [left|right; exact Hs]. simpl in Hs. apply andb_prop in Hs. tauto.
+        -- rewrite select_cands_param. unfold m2k. cbn [kmatch].
+           destruct (seg is_slash (c :: p')) as [|v0 vv] eqn:Ev; [reflexivity|].
+           rewrite kmatch_acc, fin_pre. simpl app. rewrite res_of_with_vals.
+           apply IHkt; auto; [rewrite skipn_length; simpl in Hf |- *; lia|].
+           destruct Hs as [Hs|Hs]; [left|right; exact Hs]. apply nostar_skipn; exact Hs.
+      * (* suffix catch-all ends the key: r is a leaf without children *)
+        pose proof (lnc_nochild _ _ Hlnc) as ->. destruct r as [rt|]; [|discriminate].
+        cbn [select]. rewrite adv_param_cands_catch, adv_catch_cands_catch, adv_static_cands_catch.
+        cbn [Nat.eqb negb]. unfold orelse at 1 2.
+        assert ((if Ascii.eqb c "{" || Ascii.eqb c "*" then None else @None (bytes * list bytes)) = None) as ->
+          by (destruct (Ascii.eqb c "{" || Ascii.eqb c "*"); reflexivity).
+        rewrite cands_nil. unfold below. simpl own. simpl app.
+        destruct f as [|f']; [simpl in Hf; lia|].
+        rewrite (select_catch_last f' rt c p' vals) by reflexivity.
+        unfold m2k. cbn [kmatch fin res_of]. unfold lpat. simpl. reflexivity.
+Qed.
+
+Lemma prep_prep a b c : prep a (prep b c) = prep (a ++ b) c.
+Proof. unfold prep. simpl. rewrite app_assoc. reflexivity. Qed.
+
+Lemma map_flat_map {A B C} (f : B -> C) (g : A -> list B) l : map f (flat_map g l) = flat_map (fun x => map f (g x)) l.
+Proof. induction l as [|x l IH]; simpl; auto. rewrite map_app, IH. reflexivity. Qed.
+
+Lemma flat_map_ext_in {A B} (f g : A -> list B) l : (forall x, In x l -> f x = g x) -> flat_map f l = flat_map g l.
+Proof. induction l as [|x l IH]; simpl; auto. intros H. rewrite (H x) by auto. rewrite IH; auto. Qed.
+
+Lemma cands_of_routes : forall n pre pt, pwf pre n -> pre = render pt -> forallb tok_ok pt = true ->
+  map mk_cand (map rpat (routes_s n)) = map (prep pt) (cands_of n).
+Proof.
+  induction n as [k r ch IH] using node_ind'. intros pre pt Hwf Hpre Hpt.
+  apply pwf_inv in Hwf. destruct Hwf as (kt & Hne & Hk & Hok & Hr & Hnd & Hch).
+  pose proof (kt_ok_tok _ _ Hok) as Hok'.
+  subst k. cbn [routes_s cands_of]. rewrite tokenize_render by exact Hok'.
+  rewrite !map_app, map_map. f_equal.
+  - destruct r as [rt|]; simpl; auto. unfold mk_cand, prep. simpl. rewrite (Hr rt eq_refl), Hpre.
+    rewrite <- render_app, tokenize_render, app_nil_r; auto.
+    rewrite forallb_app, Hpt, Hok'. reflexivity.
+  - rewrite (map_map (prep kt) (prep pt)).
+    rewrite (map_ext _ (prep (pt ++ kt))) by (intros; apply prep_prep).
+    rewrite (map_map rpat mk_cand). rewrite !map_flat_map. apply flat_map_ext_in. intros x Hx.
+    rewrite Forall_forall in IH, Hch. rewrite <- (map_map rpat mk_cand).
+    apply (IH x Hx (pre ++ render kt)); auto.
+    + rewrite Hpre, render_app. reflexivity.
+    + rewrite forallb_app, Hpt, Hok'. reflexivity.
+Qed.
+
+Lemma kmatch_names b : forall kt p, kt_ok b kt = true ->
+  match kmatch kt p [] with
+  | KDone _ vals | KCatch vals => map fst vals = wildcard_names kt
+  | _ => True
+  end.
+Proof.
+  induction kt as [|t kt IH]; intros p Hok.
+  - reflexivity.
+  - destruct p as [|c p']; [exact I|].
+    destruct (kt_ok_cons _ _ _ Hok) as [[Ht Hok']|(nm' & -> & -> & _ & _)].
+    + destruct t as [d|nm|nm]; simpl in Ht; try discriminate; cbn [kmatch].
+      * destruct (Ascii.eqb d c && sbyte c); [|exact I]. apply IH; auto.
+      * destruct (seg is_slash (c :: p')) as [|v0 vv]; [exact I|].
+        rewrite kmatch_acc. specialize (IH (skipn (List.length (v0 :: vv)) (c :: p')) Hok').
+        destruct (kmatch kt (skipn (List.length (v0 :: vv)) (c :: p')) []) as [rest' vals'|vals'| |]; simpl; auto;
+          f_equal; exact IH.
+    + reflexivity.
+Qed.
+
+Lemma m2_child_some cc ch q l v2 : m2_child cc ch q = Some (l, v2) -> exists x, In x ch /\ m2 x q = Some (l, v2).
+Proof.
+  unfold m2_child. destruct (first_child cc ch) as [x|] eqn:E; [|discriminate].
+  intros H. exists x. split; auto. apply first_child_in in E. tauto.
+Qed.
+
+Lemma wildcard_names_app a b : wildcard_names (a ++ b) = wildcard_names a ++ wildcard_names b.
+Proof. unfold wildcard_names. apply flat_map_app. Qed.
+
+Lemma m2_sound : forall n pre p l kvs, pwf pre n -> m2 n p = Some (l, kvs) ->
+  exists rt bt, nroute l = Some rt /\ In rt (routes_s n) /\ rpat rt = pre ++ render bt /\
+                forallb tok_ok bt = true /\ map fst kvs = wildcard_names bt.
+Proof.
+  induction n as [k r ch IH] using node_ind'. intros pre p l kvs Hwf.
+  apply pwf_inv in Hwf. destruct Hwf as (kt & Hne & Hk & Hok & Hr & Hnd & Hch).
+  pose proof (kt_ok_tok _ _ Hok) as Hok'.
+  subst k. rewrite m2_eq, tokenize_render by exact Hok'.
+  pose proof (kmatch_names _ kt p Hok) as Hnames.
+  destruct (kmatch kt p []) as [[|c rest] vals|vals| |] eqn:Ek; try discriminate.
+  - destruct r as [rt|]; [|discriminate]. intros [= <- <-].
+    exists rt, kt. simpl. repeat split; auto.
+  - intros H.
+    destruct (alt (m2_child c ch (c :: rest)) (alt (m2_child "{" ch (c :: rest)) (m2_child "*" ch (c :: rest))))
+      as [[l' v2]|] eqn:Ea; [|discriminate].
+    simpl in H. inversion H; subst l' kvs. clear H.
+    assert (exists x, In x ch /\ m2 x (c :: rest) = Some (l, v2)) as (x & Hx & Hm).
+    { unfold alt in Ea. destruct (m2_child c ch (c :: rest)) as [[l1 v1]|] eqn:E1.
+      - inversion Ea; subst. eapply m2_child_some; eauto.
+      - destruct (m2_child "{" ch (c :: rest)) as [[l1 v1]|] eqn:E2.
+        + inversion Ea; subst. eapply m2_child_some; eauto.
+        + eapply m2_child_some; eauto. }
+    rewrite Forall_forall in IH, Hch.
+    destruct (IH x Hx (pre ++ render kt) _ _ _ (Hch x Hx) Hm) as (rt & bt & H1 & H2 & H3 & H4 & H5).
+    exists rt, (kt ++ bt). repeat split; auto.
+    + cbn [routes_s]. apply in_or_app. right. apply in_flat_map. exists x; auto.
+    + rewrite H3, render_app, app_assoc. reflexivity.
+    + rewrite forallb_app, Hok', H4. reflexivity.
+    + rewrite map_app, wildcard_names_app. f_equal; [exact Hnames|exact H5].
+  - (* suffix catch-all: the node is a leaf *)
+    intros [= <- <-].
+    assert (lnc r ch = true) as Hl.
+    { clear -Hok Ek. revert p vals Ek Hok. induction kt as [|t kt IHk]; intros p vals Ek Hok; [discriminate|].
+      destruct p as [|c p']; [discriminate|].
+      destruct (kt_ok_cons _ _ _ Hok) as [[Ht Hok']|(nm' & -> & -> & _ & Hb)]; [|exact Hb].
+      destruct t as [d|nm|nm]; simpl in Ht; try discriminate; cbn [kmatch] in Ek.
+      - destruct (Ascii.eqb d c && sbyte c); [|discriminate]. eapply IHk; eauto.
+      - destruct (seg is_slash (c :: p')) as [|v0 vv]; [discriminate|].
+        rewrite kmatch_acc in Ek.
+        destruct (kmatch kt (skipn (List.length (v0 :: vv)) (c :: p')) []) eqn:E; try discriminate.
+        eapply IHk; eauto. }
+    destruct r as [rt|]; [|destruct ch; discriminate].
+    exists rt, kt. simpl. repeat split; auto.
+Qed.
+
+Lemma combine_fst_snd {A B} (l : list (A * B)) : combine (map fst l) (map snd l) = l.
+Proof. induction l as [|[a b] l IH]; simpl; auto. rewrite IH. reflexivity. Qed.
+
+Lemma pwf_routes_prefix : forall n pre rt, pwf pre n -> In rt (routes_s n) -> exists q, rpat rt = pre ++ nkey n ++ q.
+Proof.
+  induction n as [k r ch IH] using node_ind'. intros pre rt Hwf Hin.
+  apply pwf_inv in Hwf. destruct Hwf as (kt & _ & _ & _ & Hr & _ & Hch).
+  cbn [routes_s] in Hin. apply in_app_or in Hin. destruct Hin as [Hin|Hin].
+  - destruct r as [r0|]; simpl in Hin; [|tauto]. destruct Hin as [<-|[]].
+    exists []. simpl. rewrite app_nil_r. apply Hr; reflexivity.
+  - apply in_flat_map in Hin. destruct Hin as (x & Hx & Hrt).
+    rewrite Forall_forall in IH, Hch.
+    destruct (IH x Hx (pre ++ k) rt (Hch x Hx) Hrt) as [q Hq].
+    exists (nkey x ++ q). simpl. rewrite Hq, <- app_assoc. reflexivity.
+Qed.
+
+Lemma pwf_routes_path t : pwf [] t -> starts_with "/" (nkey t) = true ->
+  Forall (fun p => is_path_pattern p = true) (map rpat (routes_of_node t)).
+Proof.
+  intros Hwf Hsl. rewrite Forall_forall. intros p Hp. apply in_map_iff in Hp. destruct Hp as (rt & <- & Hin).
+  rewrite routes_of_node_s in Hin. destruct (pwf_routes_prefix t [] rt Hwf Hin) as [q Hq]. rewrite Hq. simpl.
+  destruct (nkey t) as [|d kk]; simpl in *; [discriminate|]. apply Ascii.eqb_eq in Hsl. subst d. reflexivity.
+Qed.
+
+(* S on the routes of the tree = M2 *)
+Theorem spec_eq_m2 t host path : pwf [] t -> starts_with "/" (nkey t) = true ->
+  nostar path = true \/ plain t = true ->
+  select_in (map rpat (routes_of_node t)) host path false = res_of [] (m2 t path).
+Proof.
+  intros Hwf Hsl Hs. unfold select_in.
+  assert (filter (fun p => is_path_pattern p) (map rpat (routes_of_node t)) = map rpat (routes_of_node t)) as ->.
+  { pose proof (pwf_routes_path t Hwf Hsl) as H. induction H as [|p l Hp _ IH]; simpl; auto. rewrite Hp, IH. reflexivity. }
+  rewrite routes_of_node_s, (cands_of_routes t [] [] Hwf eq_refl eq_refl).
+  rewrite (map_ext _ (fun c => c)) by apply prep_nil. rewrite map_id.
+  rewrite cands_of_tokens, m2_m2k.
+  destruct t as [k r ch]. pose proof (pwf_inv _ _ _ _ Hwf) as (kt & _ & Hk & Hok & _).
+  cbn [nkey nroute nchildren]. rewrite Hk, tokenize_render by (eapply kt_ok_tok; exact Hok). rewrite <- Hk.
+  apply (m2k_select (Node k r ch) [] Hwf kt); auto. unfold spec_fuel. lia.
+Qed.
+
+(* M1 = S, direct matches, with parameter values *)
+Theorem lbp_param_eq_spec t host path fuel :
+  pwf [] t -> starts_with "/" (nkey t) = true -> m2_fuel t <= fuel ->
+  nostar path = true \/ plain t = true ->
+  direct_obs (lookup_by_path fuel t path false [] []) = spec_direct (map rpat (routes_of_node t)) host path.
+Proof.
+  intros Hwf Hsl Hf Hs. unfold spec_direct. rewrite (spec_eq_m2 t host path Hwf Hsl Hs).
+  pose proof (lbp_eq_m2 t path false fuel Hwf Hf) as H.
+  destruct (m2 t path) as [[l kvs]|] eqn:Em.
+  - destruct H as [tps' ->]. destruct (m2_sound _ _ _ _ _ Hwf Em) as (rt & bt & H1 & H2 & H3 & H4 & H5).
+    simpl. unfold lpat. rewrite H1. f_equal. f_equal.
+    unfold name_values. simpl in H3. rewrite H3, tokenize_render by exact H4. rewrite <- H5. symmetry. apply combine_fst_snd.
+  - destruct H as (a & b & c & d & -> & Hi). simpl.
+    destruct a as [n|]; auto. destruct b; auto. specialize (Hi eq_refl). discriminate.
+Qed.
+
+(* with lazy parameter capture (Reverse / Iter.Reverse) the same route is selected *)
+Theorem lbp_param_eq_spec_lazy t host path fuel lazy :
+  pwf [] t -> starts_with "/" (nkey t) = true -> m2_fuel t <= fuel ->
+  nostar path = true \/ plain t = true ->
+  option_map fst (direct_obs (lookup_by_path fuel t path lazy [] [])) =
+  option_map fst (spec_direct (map rpat (routes_of_node t)) host path).
+Proof.
+  intros Hwf Hsl Hf Hs. unfold spec_direct. rewrite (spec_eq_m2 t host path Hwf Hsl Hs).
+  pose proof (lbp_eq_m2 t path lazy fuel Hwf Hf) as H.
+  destruct (m2 t path) as [[l kvs]|] eqn:Em.
+  - destruct H as [tps' ->]. destruct (m2_sound _ _ _ _ _ Hwf Em) as (rt & bt & H1 & _).
+    simpl. unfold lpat. rewrite H1. reflexivity.
+  - destruct H as (a & b & c & d & -> & Hi). simpl.
+    destruct a as [n|]; auto. destruct b; auto. specialize (Hi eq_refl). discriminate.
+Qed.
+
+(* never Panic / OutOfFuel under the bound *)
+Theorem lbp_param_total t path lazy fuel :
+  pwf [] t -> m2_fuel t <= fuel ->
+  exists n tp pss tpss, lookup_by_path fuel t path lazy [] [] = Found n tp pss tpss.
+Proof.
+  intros Hwf Hf. pose proof (lbp_eq_m2 t path lazy fuel Hwf Hf) as H.
+  destruct (m2 t path) as [[l kvs]|].
+  - destruct H as [tps' ->]. do 4 eexists; reflexivity.
+  - destruct H as (a & b & c & d & -> & _). do 4 eexists; reflexivity.
+Qed.
+
+Theorem roots_lookup_param_eq_spec r m t host path fuel :
+  path_only_root r m t -> pwf [] t -> m2_fuel t <= fuel ->
+  nostar path = true \/ plain t = true ->
+  direct_obs (roots_lookup fuel r m host path false [] []) =
+  sres_direct (spec_lookup (method_patterns r m) host path).
+Proof.
+  intros Hr Hwf Hf Hs. rewrite (roots_lookup_path_only _ _ _ _ _ _ _ _ t Hr), (method_patterns_path_only _ _ t Hr).
+  destruct Hr as (i & root & _ & _ & _ & _ & Hsl).
+  rewrite spec_lookup_direct_path_only by (apply pwf_routes_path; auto).
+  apply lbp_param_eq_spec; auto.
+Qed.
+
+(* ---- boolean checker for pwf (non-vacuity examples) ---- *)
+Fixpoint pwfb (pre : bytes) (n : node) : bool :=
+  match n with
+  | Node k r ch =>
+      negb (Spec.is_nil (tokenize k)) && bytes_eqb (render (tokenize k)) k && kt_ok (lnc r ch) (tokenize k)
+      && match r with Some rt => bytes_eqb (rpat rt) (pre ++ k) | None => true end
+      && nodupb (heads ch)
+      && forallb (pwfb (pre ++ k)) ch
+  end.
+
+Lemma pwfb_sound : forall n pre, pwfb pre n = true -> pwf pre n.
+Proof.
+  induction n as [k r ch IH] using node_ind'. intros pre H. cbn [pwfb] in H.
+  repeat (apply andb_prop in H; destruct H as [H ?]).
+  apply (PWF pre k r ch (tokenize k)); auto.
+  - destruct (tokenize k); [discriminate|congruence].
+  - symmetry. apply bytes_eqb_eq; auto.
+  - intros rt ->. apply bytes_eqb_eq; auto.
+  - apply nodupb_sound; auto.
+  - rewrite Forall_forall in *. intros x Hx. apply IH; auto.
+    match goal with Hf : forallb _ ch = true |- _ => rewrite forallb_forall in Hf; apply Hf; auto end.
 Qed.
